@@ -959,6 +959,10 @@ pub struct AllocEngine {
 
 impl Engine for AllocEngine {
     type Case = AllocCase;
+    fn hang_limit_secs(&self) -> u64 {
+        // cases of this engine take milliseconds
+        90
+    }
     fn property(&self) -> &str {
         self.prop
     }
@@ -978,7 +982,39 @@ impl Engine for AllocEngine {
     fn run(&self, case: &Self::Case) -> Outcome {
         crate::sim::install_panic_hook();
         crate::sim::PANICS.with(|p| p.borrow_mut().clear());
-        let run = execute(case);
+        // The allocator is pure computation: a sequence that does not come back within seconds is
+        // a hang in the code under test. It is run on its own thread so that the search can go
+        // on (a hang is inconclusive, but another case may show an actual violation); hung threads
+        // are abandoned at the lowest scheduling priority (up to 400, then the global watchdog
+        // takes over).
+        let run = if crate::common::HUNG_CASES.load(std::sync::atomic::Ordering::Relaxed) < 400 {
+            let (tx, rx) = std::sync::mpsc::channel();
+            let (tx_tid, rx_tid) = std::sync::mpsc::channel();
+            let c = case.clone();
+            let _ = std::thread::Builder::new()
+                .stack_size(16 << 20)
+                .spawn(move || {
+                    let _ = tx_tid.send(unsafe { libc::gettid() });
+                    let _ = tx.send(execute(&c));
+                });
+            match rx.recv_timeout(std::time::Duration::from_secs(10)) {
+                Ok(r) => r,
+                Err(_) => {
+                    // the abandoned thread keeps spinning: give it the lowest priority
+                    if let Ok(tid) = rx_tid.try_recv() {
+                        unsafe {
+                            libc::setpriority(libc::PRIO_PROCESS, tid as libc::id_t, 19);
+                        }
+                    }
+                    crate::common::note_hung_case(self.prop, case);
+                    let mut out = Outcome::default();
+                    out.aborted = Some("allocator did not come back within 10 s (hang)".into());
+                    return out;
+                }
+            }
+        } else {
+            execute(case)
+        };
         let mut out = Outcome::default();
         out.trace_hash = hash_str(&format!("{:?}{:?}", case.resources, run.trace));
         out.classes = run.classes.iter().cloned().collect();
